@@ -40,6 +40,10 @@ def cfg_name(c: Dict[str, Any]) -> str:
         x += f" timeout{c['timeout']}"
     if c.get("polls"):
         x += f" polls{c['polls']}"
+    if c.get("early"):
+        x += " created-before-loop"
+    if c.get("close_via", "task") != "task":
+        x += " close-via-" + c["close_via"]
     return x
 
 
@@ -113,6 +117,14 @@ def make_tasks(env: Env, cfg: Dict[str, Any], ch: AsyncChannel) -> Dict[str, Any
 
     async def closer():
         await env.point("closer")
+        if cfg.get("close_via") == "callback":
+            # close() invoked by the loop as a plain callback (add_done_callback / call_soon style):
+            # there is no current task at that moment
+            def do_close():
+                env.log("close")
+                ch.close()
+            loop.call_soon(do_close)
+            return
         env.log("close")
         ch.close()
 
@@ -181,8 +193,17 @@ def run_config(cfg: Dict[str, Any], prefix: List[int]) -> Tuple[List[int], List[
     ex = Execution(prefix)
     holder: Dict[str, Any] = {}
 
+    early = None
+    if cfg.get("early"):
+        # the channel object is created in synchronous code, BEFORE any event loop runs
+        # (module level, or an __init__ called ahead of asyncio.run)
+        import warnings
+        with warnings.catch_warnings():
+            warnings.simplefilter("ignore")
+            early = AsyncChannel(buffer_limit=cfg["buffer"])
+
     def setup(env: Env):
-        ch = AsyncChannel(buffer_limit=cfg["buffer"])
+        ch = early if early is not None else AsyncChannel(buffer_limit=cfg["buffer"])
         holder["ch"] = ch
         holder["tasks"] = make_tasks(env, cfg, ch)
         return list(holder["tasks"].values())
@@ -425,9 +446,11 @@ def configs(tier: str) -> List[Tuple[Dict[str, Any], Optional[int], int]]:
     out: List[Tuple[Dict[str, Any], Optional[int], int]] = []
     FULL = None
 
-    def add(senders, receivers, closer=True, buffer=0, cancel=None, timeout=None, bound=FULL, cap=400000, closers=1, polls=0):
+    def add(senders, receivers, closer=True, buffer=0, cancel=None, timeout=None, bound=FULL, cap=400000, closers=1, polls=0,
+            early=False, close_via="task"):
         out.append(({"senders": senders, "receivers": receivers, "closer": closer, "buffer": buffer,
-                     "cancel": cancel, "timeout": timeout, "closers": closers, "polls": polls}, bound, cap))
+                     "cancel": cancel, "timeout": timeout, "closers": closers, "polls": polls,
+                     "early": early, "close_via": close_via}, bound, cap))
 
     quick = tier == "quick"
     kinds = ["receive", "aiter"]
@@ -473,6 +496,12 @@ def configs(tier: str) -> List[Tuple[Dict[str, Any], Optional[int], int]]:
     add([["send", 1]], ["receive"], polls=2)
     add([["send", 2]], ["aiter"], buffer=1, polls=2, bound=4 if quick else FULL)
     add([["send_from_close", 2]], ["receive"], closer=False, polls=2)
+    # the channel created before the loop runs; close() invoked as a plain loop callback
+    for k in kinds:
+        add([["send", 1]], [k, "receive"], early=True, bound=4 if quick else FULL)
+        add([["send", 1]], [k, "receive"], close_via="callback", bound=4 if quick else FULL)
+    add([["send", 2]], ["aiter", "receive"], buffer=1, early=True, close_via="callback", bound=3 if quick else 4)
+    add([["send_from_close", 2]], ["receive", "aiter"], closer=False, early=True, bound=4 if quick else FULL)
     # cancellation of one receiver at any point
     for k in kinds:
         add([["send", 1]], [k], cancel=0)
